@@ -190,6 +190,76 @@ theorem defineAttrs_ok {parent : OType} {ds : List AttrDecl} {as : List Attr} (h
           · subst hb; exact mkAttr_god hm
           · exact h2 b hb
 
+/-! ### the equality / serialization loops with functions in sight -/
+
+theorem takeWhile_self_of_length {α} {p : α → Bool} {l : List α} (h : ¬ (l.takeWhile p).length < l.length) :
+    l.takeWhile p = l :=
+  (List.takeWhile_prefix p).eq_of_length (by have := (List.takeWhile_prefix p (l := l)).length_le; omega)
+
+theorem takeWhile_eq_self {α} {p : α → Bool} {l : List α} : l.takeWhile p = l ↔ ∀ x ∈ l, p x = true := by
+  induction l with
+  | nil => simp
+  | cons a as ih =>
+    by_cases hp : p a = true
+    · simp [List.takeWhile_cons, hp, ih]
+    · simp [List.takeWhile_cons, hp]
+
+theorem checkEqualityF_ok {own : List Attr} {ownF : List FnDecl} {parent : OType} {l : List String}
+    (h : checkEqualityF own ownF parent l = .ok ()) :
+    (∀ n ∈ l, isFnName own ownF parent n = false) ∧ checkEquality own parent l = .ok () := by
+  unfold checkEqualityF at h
+  simp only at h
+  cases hc : checkEquality own parent (l.takeWhile (fun n => !isFnName own ownF parent n)) with
+  | error c => simp [hc] at h
+  | ok u =>
+    simp only [hc] at h
+    split at h
+    · cases h
+    · rename_i hlen
+      have hself := takeWhile_self_of_length hlen
+      rw [hself] at hc
+      refine ⟨?_, hc⟩
+      intro n hn
+      have := takeWhile_eq_self.mp hself n hn
+      simpa using this
+
+theorem checkEqualityF_of {own : List Attr} {ownF : List FnDecl} {parent : OType} {l : List String}
+    (h : ∀ n ∈ l, isFnName own ownF parent n = false) :
+    checkEqualityF own ownF parent l = checkEquality own parent l := by
+  have hself : l.takeWhile (fun n => !isFnName own ownF parent n) = l :=
+    takeWhile_eq_self.mpr (fun n hn => by simp [h n hn])
+  unfold checkEqualityF
+  simp only [hself, Nat.lt_irrefl, if_false]
+  cases checkEquality own parent l <;> rfl
+
+theorem checkSerializationF_ok {own : List Attr} {ownF : List FnDecl} {parent : OType} {l : List String}
+    (h : checkSerializationF own ownF parent l = .ok ()) :
+    (∀ n ∈ l, isFnName own ownF parent n = false) ∧ checkSerialization own parent false [] l = .ok () := by
+  unfold checkSerializationF at h
+  simp only at h
+  cases hc : checkSerialization own parent false [] (l.takeWhile (fun n => !isFnName own ownF parent n)) with
+  | error c => simp [hc] at h
+  | ok u =>
+    simp only [hc] at h
+    split at h
+    · cases h
+    · rename_i hlen
+      have hself := takeWhile_self_of_length hlen
+      rw [hself] at hc
+      refine ⟨?_, hc⟩
+      intro n hn
+      have := takeWhile_eq_self.mp hself n hn
+      simpa using this
+
+theorem checkSerializationF_of {own : List Attr} {ownF : List FnDecl} {parent : OType} {l : List String}
+    (h : ∀ n ∈ l, isFnName own ownF parent n = false) :
+    checkSerializationF own ownF parent l = checkSerialization own parent false [] l := by
+  have hself : l.takeWhile (fun n => !isFnName own ownF parent n) = l :=
+    takeWhile_eq_self.mpr (fun n hn => by simp [h n hn])
+  unfold checkSerializationF
+  simp only [hself, Nat.lt_irrefl, if_false]
+  cases checkSerialization own parent false [] l <;> rfl
+
 /-! ### types as `define` leaves them -/
 
 structure TypeOK (t : OType) : Prop where
@@ -223,16 +293,16 @@ theorem define_ok {env : List OType} {d : Def} {t : OType} (h : define env d = .
       | error c => simp [hfn] at h
       | ok u0 =>
       simp only [hfn] at h
-      cases he : checkEquality attrs parent (d.equality.toList?.getD []) with
+      cases he : checkEqualityF attrs d.funcs parent (d.equality.toList?.getD []) with
       | error c => simp [he] at h
       | ok u =>
         simp only [he] at h
-        cases hs : checkSerialization attrs parent false [] (d.serialization.getD []) with
+        cases hs : checkSerializationF attrs d.funcs parent (d.serialization.getD []) with
         | error c => simp [hs] at h
         | ok u' =>
           simp only [hs] at h
           cases h
-          exact ⟨attrs, rfl, hs, rfl⟩
+          exact ⟨attrs, rfl, (checkSerializationF_ok hs).2, rfl⟩
 
 /-- the names of the attribute specifications are distinct: `attributes` and `constants` are hash literals (distinct keys
     each) and a name in both is refused (BOTH_CONSTANT_AND_ATTRIBUTE) -/
